@@ -36,7 +36,7 @@ ASSUMPTIONS = [
     'ASM templates, table borders and the list bullet are the defaults',
 ]
 MIN_NONTRIVIAL = {'quick': 1500, 'thorough': 30000}
-N_CASES = {'quick': 8000, 'thorough': 160000}
+N_CASES = {'quick': 6400, 'thorough': 128000}
 
 F_NOWARN = 'C18-asm-comment-overwidth-no-warning'
 
@@ -44,7 +44,7 @@ WIDTHS = [40, 41, 45, 50, 60, 72, 78, 79, 80, 81, 100, 120, 132, 160, 199, 200]
 
 def plan(tier, seed):
     n = 16
-    return [{'shard': i, 'of': n, 'timeout': 900 if tier == 'quick' else 7000, 'budget_s': 75 if tier == 'quick' else 1500} for i in range(n)]
+    return [{'shard': i, 'of': n, 'timeout': 900 if tier == 'quick' else 7000, 'budget_s': 55 if tier == 'quick' else 1100} for i in range(n)]
 
 # ------------------------------------------------------------------ settings
 
@@ -247,6 +247,8 @@ def run(shard, spec):
         for k, v in s['sna'].items():
             if k != 'w':
                 shard.hist('sna2skool:' + k, v)
+        for f in G.features(doc):
+            shard.hist('features', f)
         for e in doc['entries']:
             for g in e['groups']:
                 shard.hist('group_size', len(g['instrs']))
